@@ -20,6 +20,7 @@ import (
 	"fmt"
 	"io"
 	"net/http"
+	"sort"
 	"strconv"
 	"strings"
 	"time"
@@ -165,7 +166,17 @@ func (r restClientProtocol) prepareUnmarshalledRequest(op *operation, src []byte
 
 	// And finally from the query string:
 	discardUnknownQueryParams := op.methodConf.restUnmarshalOptions.DiscardUnknownQueryParams
-	for fieldPath, values := range op.queryValues() {
+	// Apply the parameters in a defined order (sorted by name), so that the outcome
+	// does not depend on map iteration order when more than one of them is in error,
+	// or when two spellings (proto and JSON name) address the same field.
+	queryValues := op.queryValues()
+	fieldPaths := make([]string, 0, len(queryValues))
+	for fieldPath := range queryValues {
+		fieldPaths = append(fieldPaths, fieldPath)
+	}
+	sort.Strings(fieldPaths)
+	for _, fieldPath := range fieldPaths {
+		values := queryValues[fieldPath]
 		fields, err := resolvePathToFieldDescriptors(
 			msg.Descriptor(), fieldPath, true,
 		)
